@@ -36,6 +36,28 @@ CLAIMS = {
  'C17': dict(cat='proof', tech='Lean 4 model of both generators; filter equality; correspondence',
    text="Model of GeneratePseudoLegalCaptures and GeneratePseudoLegalMoves; ordered lists compared; the property itself (captures == capturing "
         "moves of the full generator as multisets) asserted on the Go side for every generated position.", ref='5/C17'),
+ 'C07': dict(cat='proof', tech='Lean 4 model of tokeniser and go-parser; totality/faithfulness; correspondence',
+   text="Model of removePrefixGarbage and parseGo (parametric in Atoi, including the value Atoi leaves behind on an error); grammar-directed and "
+        "mutated token lists compared on parameters and canonical messages; no-panic asserted on the Go side.", ref='5/C07'),
+ 'C08': dict(cat='proof', tech='Lean 4 proof (omega) on the model of calculateTime; correspondence on grid + random',
+   text="calculateTime modelled on Int; budget < clock, budget < movetime, independence of the opponent's clock; model tied by correspondence "
+        "on a boundary grid and random values; the three clauses also asserted on the Go side.", ref='5/C08'),
+ 'C14': dict(cat='proof', tech='Lean 4 refinement of the bucket table to the log of saves; correspondence on colliding histories',
+   text="Model of Get/PotentiallySave over 4-way buckets; generated histories colliding in two buckets compared result by result; soundness, "
+        "absence and find-after-save decided against the log of saves (oracle) on the Go side.", ref='5/C14'),
+ 'C15': dict(cat='proof', tech='Lean 4 model of the evaluation; mirror/bound; correspondence of exact scores',
+   text="Every evaluation term modelled over tables dumped from the running code; exact raw score compared on generated positions incl. "
+        "promotion-heavy and bare-king material; mirror symmetry and the mate-range bound asserted on the Go side with the mirror checked "
+        "against the spec mirror.", ref='5/C15'),
+ 'C16': dict(cat='proof', tech='Lean 4 proof of cache transparency (parametric); correspondence on histories',
+   text="Model of evalWithCache and its direct-mapped table; histories with pairs differing only in half-move clock (across 100), castling "
+        "rights and en passant state compared score by score; transparency asserted against the uncached evaluation (hook).", ref='5/C16'),
+ 'C18': dict(cat='proof', tech='Lean 4 swap-list vs minimax theorem; model of SEE; spec minimax oracle',
+   text="Model of the swap algorithm with x-rays compared on exact value for every legal non-en-passant capture of generated positions; the "
+        "sign is decided against a recursive minimax on the spec board (attackers recomputed after each capture).", ref='5/C18'),
+ 'C19': dict(cat='proof', tech='Lean 4 proof that SortIndex visiting is a sorted permutation; model of scoreMoves; correspondence',
+   text="Model of scoreMoves and SortIndex; scored list and visit order compared for generated positions x heuristic states (PV/TT move with "
+        "and without score bits, killers, history, counter moves); permutation and order asserted on the Go side.", ref='5/C19'),
 }
 
 PENDING = {
